@@ -4,6 +4,7 @@ import PnaVerif.Model.Chunk
 import PnaVerif.Model.Canon
 import PnaVerif.Model.Toy
 import PnaVerif.Model.Pipeline
+import PnaVerif.Model.Split
 /-
   Line-protocol driver: one request per line on stdin, one canonical answer per line on stdout.
   Imports model files only (no Mathlib) so that it links as a native executable.
@@ -186,6 +187,25 @@ def handle (line : String) : String :=
       outcomeS toHexW (openEntryData enc mode (if hasPhsf == "1" then some [] else none)
         (if hasPw == "1" then some [] else none) phc sl (fun _ _ _ => dec) (fun _ => decomp))
     | _, _, _, _, _, _ => "bad-op"
+  | ["split.part", cs, max] =>
+    match parseChunks cs, max.toNat? with
+    | some cs, some max =>
+      let (a, b) := splitPart cs max
+      s!"ok {chunkListS a} {partLen a} " ++ (match b with | none => "none" | some b => s!"{chunkListS b} {partLen b}")
+    | _, _ => "bad-op"
+  | ["split.archive", h, max] =>
+    match ofHex h, max.toNat? with
+    | some b, some max =>
+      let (items, st) := rawEntriesWith chunksStream b
+      match st with
+      | .ok _ =>
+        match writeSplit items max with
+        | .ok bodies => "ok " ++ " ".intercalate ((encodeParts bodies).map Canon.digest)
+        | .error e => errS e
+        | .panic s => "panic " ++ s
+      | .error e => errS e
+      | .panic s => "panic " ++ s
+    | _, _ => "bad-op"
   | ["archive.read.stream", h] =>
     match ofHex h with
     | some b => Canon.readS (readArchiveStream b)
